@@ -5,7 +5,7 @@ From Coq Require Import String.
 From Coq Require Import List Ascii ZArith Bool.
 From CGV Require Import Base.PyBase Base.PyVal Gen.DialectGen Dialect.DialectImpl Dialect.DialectDefs
      Dialect.DialectCheck Dialect.FaultModels.
-From CGV Require Reader.ReaderImpl Frag.StripImpl Resolve.Pipeline.
+From CGV Require Reader.ReaderImpl Frag.StripImpl Resolve.Pipeline Base.NxGraph Resolve.GraphOps Dialect.DriverModel.
 Import ListNotations.
 
 (** [impl]: the exception raised by MoleculeResolver.from_string(s).resolve_all() on the faulty
@@ -27,7 +27,10 @@ Inductive fcase :=
 | FFrag (nodes : list (Z * pystr)) (edges : list (Z * Z * Z)) (dict : list pystr) (bad : Z) (impl : option err)
 (** a fault in the BASE block, with the whole faulty string [s]: judged also through the resolver component's driver
     model (Pipeline.from_string: find_blocks, read_cgsmiles on the first block BEFORE any fragment block is read) *)
-| FBase (c : fcase) (tbl : table) (s : pystr).
+| FBase (c : fcase) (tbl : table) (s : pystr)
+(** an annotation fault inside a fragment definition, with the whole faulty string [s] and last_all_atom: judged also
+    through the driver model with read_fragments = split / strip_bonding_descriptors / a dummy template (DriverModel) *)
+| FFragDrive (c : fcase) (tbl : table) (s : pystr) (laa : bool).
 
 Definition agree {A} (model : res A) (impl : option err) : bool :=
   match model, impl with
@@ -46,7 +49,7 @@ Definition annot_model (lk : nat) (fo : float_oracle) (text : pystr) : res attrs
 Fixpoint impl_of (c : fcase) : option err :=
   match c with
   | FAnnot _ _ _ _ impl | FStrip _ _ _ _ _ impl | FRing _ _ _ _ _ impl | FFrag _ _ _ _ impl => impl
-  | FBase c _ _ => impl_of c
+  | FBase c _ _ | FFragDrive c _ _ _ => impl_of c
   end.
 (** the fragment blocks are not read by this model: ENoReturn = "the base block was read" *)
 Definition base_driver (tbl : table) (s : pystr) : res Resolve.Pipeline.rstate :=
@@ -58,8 +61,15 @@ Definition base_driver_ok (tbl : table) (s : pystr) (impl : option err) : bool :
   | Ok _ => false
   end.
 
+(** every block is read (the templates are dummies: one empty graph per fragment name); Ok = no parser refused anything *)
+Definition frag_driver (tbl : table) (s : pystr) (laa : bool) : res Resolve.Pipeline.rstate :=
+  let fo := fo_of_table tbl in
+  Resolve.Pipeline.from_string (Reader.ReaderImpl.read_cgsmiles fo)
+    (Dialect.DriverModel.read_fragments_with fo (fun _ _ _ => Ok Base.NxGraph.gempty) (fun name g fd => fd ++ [(name, g)])) s laa true.
+
 Fixpoint corr_ok (c : fcase) : bool :=
   match c with
+  | FFragDrive c' tbl s laa => corr_ok c' && agree (frag_driver tbl s laa) (impl_of c')
   | FBase c' tbl s => corr_ok c' && (match impl_of c' with None => true | Some _ => base_driver_ok tbl s (impl_of c') end)
   | FAnnot lk _ tbl text impl => agree (annot_model lk (fo_of_table tbl) text) impl
   | FStrip lk _ tbl text ftext impl =>
@@ -130,7 +140,7 @@ Definition dup_present (evs : list ev) (m : Z) : bool :=
 
 Fixpoint prop_fail (c : fcase) : nat :=
   match c with
-  | FBase c' _ _ => prop_fail c'
+  | FBase c' _ _ | FFragDrive c' _ _ _ => prop_fail c'
   | FAnnot lk kind tbl text impl | FStrip lk kind tbl text _ impl =>
       let fo := fo_of_table tbl in
       if negb (fault_present lk kind fo text) then 90%nat
